@@ -1103,6 +1103,9 @@ pub enum Counter {
     AlphaLower
 }
 
+/// Name and number trees are balanced search trees; real ones are a handful of levels deep.
+const TREE_MAX_DEPTH: usize = 32;
+
 #[derive(Debug, DataSize)]
 pub enum NameTreeNode<T> {
     ///
@@ -1120,6 +1123,11 @@ pub struct NameTree<T> {
 }
 impl<T: Object+DataSize> NameTree<T> {
     pub fn walk(&self, r: &impl Resolve, callback: &mut dyn FnMut(&PdfString, &T)) -> Result<(), PdfError> {
+        self.walk_limited(r, callback, &mut Vec::new(), TREE_MAX_DEPTH)
+    }
+    // `seen`: kids visited so far. In a tree every node has one parent; a node reached twice means a
+    // cycle (endless recursion) or a shared subtree (work exponential in the depth).
+    fn walk_limited(&self, r: &impl Resolve, callback: &mut dyn FnMut(&PdfString, &T), seen: &mut Vec<PlainRef>, depth: usize) -> Result<(), PdfError> {
         match self.node {
             NameTreeNode::Leaf(ref items) => {
                 for (name, val) in items {
@@ -1127,9 +1135,16 @@ impl<T: Object+DataSize> NameTree<T> {
                 }
             }
             NameTreeNode::Intermediate(ref items) => {
+                if depth == 0 {
+                    bail!("name tree depth exceeded");
+                }
                 for &tree_ref in items {
+                    if seen.contains(&tree_ref.get_inner()) {
+                        bail!("name tree node {} is reachable more than once", tree_ref.get_inner().id);
+                    }
+                    seen.push(tree_ref.get_inner());
                     let tree = r.get(tree_ref)?;
-                    tree.walk(r, callback)?;
+                    tree.walk_limited(r, callback, seen, depth - 1)?;
                 }
             }
         }
@@ -1286,6 +1301,9 @@ impl<T: ObjectWrite> ObjectWrite for NumberTree<T> {
 }
 impl<T: Object+DataSize> NumberTree<T> {
     pub fn walk(&self, r: &impl Resolve, callback: &mut dyn FnMut(i32, &T)) -> Result<(), PdfError> {
+        self.walk_limited(r, callback, &mut Vec::new(), TREE_MAX_DEPTH)
+    }
+    fn walk_limited(&self, r: &impl Resolve, callback: &mut dyn FnMut(i32, &T), seen: &mut Vec<PlainRef>, depth: usize) -> Result<(), PdfError> {
         match self.node {
             NumberTreeNode::Leaf(ref items) => {
                 for &(idx, ref val) in items {
@@ -1293,9 +1311,16 @@ impl<T: Object+DataSize> NumberTree<T> {
                 }
             }
             NumberTreeNode::Intermediate(ref items) => {
+                if depth == 0 {
+                    bail!("number tree depth exceeded");
+                }
                 for &tree_ref in items {
+                    if seen.contains(&tree_ref.get_inner()) {
+                        bail!("number tree node {} is reachable more than once", tree_ref.get_inner().id);
+                    }
+                    seen.push(tree_ref.get_inner());
                     let tree = r.get(tree_ref)?;
-                    tree.walk(r, callback)?;
+                    tree.walk_limited(r, callback, seen, depth - 1)?;
                 }
             }
         }
